@@ -13,6 +13,11 @@ def build(g):
         a, b = i - 1, j - 1
         if r.get("sym"):
             A[a, b] = A[b, a] = 1
+        elif r.get("mixed"):     # an edge list with mixed orientations: each undirected edge stored once, above OR below the diagonal
+            if (a * 7 + b * 3) % 2:
+                A[max(a, b), min(a, b)] = 1
+            else:
+                A[min(a, b), max(a, b)] = 1
         elif r.get("lower"):
             A[max(a, b), min(a, b)] = 1
         else:
